@@ -27,6 +27,10 @@ SPECS = {
     'permutation': ('space', (('many', 3, (C, C, C), True, False),)),
     'perm-cond': ('space', (('many', 3, (('space', (('one', (C, C)),)), ('space', (('one', (C, C, C)),)), C), True, False),)),
     'two-perms': ('space', (('many', 3, (C, C, C), True, False), ('many', 2, (C, C), True, False), ('one', (C, C)))),
+    # the whole space is ONE choice (choose one of N families), with a permutation and a float below it
+    'root-choice': ('space', (('one', (('space', (('many', 3, (C, C, C), True, False),)), ('space', (F,)), C)),)),
+    # a float whose bounds are not exactly representable sums: the mean of three values at a bound leaves the range
+    'float-edge': ('space', (('float', 0.0, 0.1), ('float', 0.7, 1.0), ('one', (C, C)))),
 }
 
 
@@ -37,7 +41,7 @@ def literals(d, n=None):
       per = [lits(e) for e in x[1]]
       return list(per[0]) if len(per) == 1 else [list(t) for t in itertools.product(*per)]
     if x[0] == 'float':
-      return [x[1], x[2], 0.25]
+      return [x[1], x[2], x[1] + (x[2] - x[1]) / 4]
     if x[0] == 'one' or (x[0] == 'many' and x[1] == 1):
       cands = x[1] if x[0] == 'one' else x[2]
       out = []
@@ -58,7 +62,15 @@ def literals(d, n=None):
 
 
 def snapshot(dnas):
-  return [(repr(x.to_json()), repr(dict(x.metadata)), id(x)) for x in dnas]
+  """Values, metadata, identity AND the place of each input in its own tree (a DNA handed in is a root)."""
+  out = []
+  for x in dnas:
+    try:
+      own_root = x.root is x
+    except Exception as e:  # pylint: disable=broad-except
+      own_root = f'root raises {type(e).__name__}'
+    out.append((repr(x.to_json()), repr(dict(x.metadata)), id(x), x.sym_parent is None, str(x.sym_path), own_root))
+  return out
 
 
 def check_outputs(rec, spec, d, outs, what, tr):
@@ -123,6 +135,10 @@ def run_op(rec, name, make_op, spec, d, inputs_lits, tr, cap, fitness=None, is_s
       rec.viol(f'input-list-modified/{name.split("@")[0]}', f'{name} changed the input list ({len(inputs)} -> {len(holder)} items)', trc)
     if err is not None:
       rec.stat(f'{name}:raises:{type(err).__name__}')
+      if name.startswith(('mut.', 'rec.')) and 'mmutable' not in str(err):
+        # valid parents of one specification: a mutator / recombinator has a valid child for them (a mutator may only
+        # report that nothing in the DNA is mutable)
+        rec.viol(f'operator-raises-on-valid-parents:{type(err).__name__}/{name.split("@")[0]}', f'{name} on {inputs_lits!r}: {err}', trc)
       continue
     rec.stat(f'{name}:ok')
     if is_selector:
@@ -176,12 +192,14 @@ OPS = {
     'rec.Order': (lambda: R.Order(), lambda s: R.Order(seed=s), 2),
     'rec.Cycle': (lambda: R.Cycle(), lambda s: R.Cycle(seed=s), 2),
     'rec.Uniform3': (lambda: R.Uniform(), lambda s: R.Uniform(seed=s), 3),
+    'rec.Average3': (lambda: R.Average(), None, 3),
+    'rec.WeightedAverage3': (lambda: R.WeightedAverage(lambda x: [1.0, 1.0, 1.0]), None, 3),
 }
 
 
 def op_item(rec, item):
   sname, opname, tier = item
-  if opname in ('rec.PartiallyMapped', 'rec.Order', 'rec.Cycle') and sname not in ('permutation', 'two-perms', 'flat', 'perm-cond'):
+  if opname in ('rec.PartiallyMapped', 'rec.Order', 'rec.Cycle') and sname not in ('permutation', 'two-perms', 'flat', 'perm-cond', 'root-choice'):
     return
   d = SPECS[sname]
   spec = D.mk(d)
@@ -196,6 +214,8 @@ def op_item(rec, item):
     groups = [list(t) for t in itertools.permutations(pool, arity)]
     if tier != 'thorough':
       groups = groups[::max(1, len(groups) // 4)][:4]
+  if arity >= 2:
+    groups += [[l] * arity for l in (lits[0], lits[-1])]          # identical parents (also at the bounds of a float)
   for g in groups:
     outs = run_op(rec, f'{opname}@{sname}', make, spec, d, g, tr, cap)
     if outs:
